@@ -17,7 +17,8 @@ ID = "C10"
 PROPS = ["props/C10.v"]
 EXTRACTS = ["C10"]
 THEOREMS = ["C10_index_consistent_all_histories", "C10_one_node_per_project_all_histories", "C10_coherence_checker_sound",
-            "C10_refuted_incoherent_after_entitled_history", "C10_refuted_internal_errors"]
+            "C10_refuted_incoherent_after_entitled_history", "C10_refuted_internal_errors",
+            "C10_links_forward_coherent_all_histories", "C10_forward_coherence_is_not_vacuous"]
 RULE = ("operation histories (add input set / placeholder, solve a placeholder with a distribution the way the "
         "solver does - source = a requirer, reason = its stored edge -, loader-style adds, invalidate, remove) are "
         "generated adaptively against the real DistributionCollection over an alphabet of 4 projects x 2 versions "
@@ -32,7 +33,9 @@ TRUSTED_BASE = [
 ]
 ASSUMPTIONS = ["PYTHONHASHSEED=0 (set iteration order of the extras alphabet is measured, not modelled)"]
 LEVEL_TEXT = ("Invariant theorems over all operation histories of a Gallina state-machine model of DistributionCollection "
-              "(heap of node objects + index), with refuted witnesses for the full coherence statement; model tied to "
+              "(heap of node objects + index): index/heap consistency, one node per project, and - kept at every intermediate "
+              "state of the removal cascade - forward link coherence (no dependency link of a project in the graph points at a "
+              "removed project, and each is mirrored by a requirer link); refuted witnesses for the full coherence statement; model tied to "
               "/repo by per-operation state correspondence on generated histories.")
 LEVEL_NOTE = "Trusted: Coq kernel, extraction, drivers, T1/T2 harness; third-party packaging semantics validated by sampling (C17 grid)."
 TECHNIQUE = "Rocq proof (invariants by induction over op histories) + extraction-based per-step differential correspondence"
